@@ -115,7 +115,7 @@ def showCut (initSize pageSize : Nat) (sops : List Spec.MmapDict.Op) (eff : Stri
   | some bytes =>
     let rd := readAllValuesFromFile pageSize bytes
     let cls := match rd with
-      | .ok xs => classify sops (xs.map fun (k, v, t, _) => (k, v, t))
+      | .ok xs => classify sops (xs.map fun ((k, v, t, _) : Item) => (k, v, t))
       | .error _ => "-"
     let ro := match init initSize bytes with
       | .ok (d, _) => s!"ok:{d.used}:{d.capacity}:{d.positions.length}:{showRes (readAllValues d)}"
@@ -140,7 +140,7 @@ def handle : List String → String
     match isz.toNat?, psz.toNat?, decOps opsF with
     | some initSize, some pageSize, some ops =>
       match run initSize ops with
-      | .ok (_, effs) =>
+      | .ok ((_, effs) : MmapedDict × List Effect) =>
         let sops := ops.map toSpec
         "ok " ++ ";".intercalate (cutsLoop initSize pageSize sops none effs [showCut initSize pageSize sops "-" none])
       | .error e => "err " ++ e.name
